@@ -92,7 +92,8 @@ def make_mesh_contracts(name):
 
     @contract("colliders.MeshGraph[%s].support_function" % name, fn="distance3d.colliders.MeshGraph.support_function", props=["C03"],
               deps=["distance3d.mesh.hill_climb_mesh_extreme", "distance3d.mesh.MeshHillClimbingSupportFunction.__call__",
-                    "distance3d.mesh.MeshHillClimbingSupportFunction.__init__"])
+                    "distance3d.mesh.MeshHillClimbingSupportFunction.__init__"],
+              tags=(["thorough-only"] if name == "fan14" else []))
     def _support(cx):
         """for every pose, every direction d != 0 and every cached start vertex (every query history): the result is a mesh vertex
         (a point of the set) and no vertex projects further on d by more than 16 * PROJECTION_LENGTH_EPSILON; terminates"""
@@ -148,20 +149,19 @@ def make_mesh_contracts(name):
               deps=["distance3d.mesh.MeshHillClimbingSupportFunction.update_pose", "distance3d.colliders.MeshGraph.aabb",
                     "distance3d.colliders.MeshGraph.support_function"], opts=dict(minmax_ite=True))
     def _upd(cx):
-        """query, update_pose(T), query again: every answer after the move equals the answer of a MeshGraph constructed at T
-        (support up to the hill-climbing slack; aabb / center / first_vertex exactly); no query raises"""
+        """(optional earlier query) ; update_pose(T): the complete object state equals that of a MeshGraph constructed at T - every
+        attribute, recursively, so a stale cache of any kind is a failure - except the cached start vertex, which must be a vertex
+        referenced by a triangle (the precondition under which the support contract above holds for every history).  One query of
+        each kind afterwards agrees with the fresh object and does not raise."""
         V, tri = _mesh(cx, name)
         T0 = spec.pose(cx, "T0", reduce=None)
         T = spec.pose(cx, "T")
         K = cx.target("distance3d.colliders.MeshGraph")
         moved = cx.call(K, T0, V, tri)
-        fresh = cx.call(K, T, V, tri)
-        eps = cx.abstract_constant("distance3d.mesh", "PROJECTION_LENGTH_EPSILON", positive=True, upper=1e-9)
         qb = cx.choice(3, "query_before")
         if qb == 1:
             cx.call(moved.aabb)
         elif qb == 2:
-            # an earlier support query: its only lasting effect is the cached start vertex (any referenced vertex)
             if sym(cx):
                 refs = _referenced(name)
                 moved._support_function.first_idx = refs[cx.choice(len(refs), "history:first_idx")]
@@ -170,18 +170,18 @@ def make_mesh_contracts(name):
                 cx.call(moved.support_function, np.ascontiguousarray(d0))
         pose_arg = np.ascontiguousarray(np.array(T, dtype=T.dtype))
         cx.call(moved.update_pose, pose_arg)
+        fresh = cx.call(K, np.ascontiguousarray(np.array(T, dtype=T.dtype)), V, tri)
+        refs = set(_referenced(name))
+        _state_equal(cx, moved, fresh, "MeshGraph", refs)
         q = cx.choice(4, "query_after")
         if q == 0:
-            d, delta = spec.world_dir(cx, "d", T)
-            a = cx.call(moved.support_function, d)
-            ia = int(moved._support_function.first_idx)
-            cx.prove("moved_result_is_vertex_at_new_pose", cx.eq(a, _world(cx, T, V[ia])))
-            for k in range(nverts):
-                if sym(cx):
-                    cx.prove("moved_dominates_vertex[%d]" % k, dot(V[k], delta) <= dot(V[ia], delta) + SLACK_FACTOR * eps)
-                else:
-                    cx.prove("moved_dominates_vertex[%d]" % k, CB(float(dot(V[k], delta) - dot(V[ia], delta)) - SLACK_FACTOR * eps),
-                             tol=1e-9 * max(1.0, float(np.linalg.norm(delta))))
+            # concrete directions in the mesh frame (general directions: support contract above, given the state invariant)
+            for dl in ([1.0, 0.0, 0.0], [0.0, -1.0, 0.0], [0.3, 0.2, 1.0], [-1.0, -1.0, -1.0]):
+                d = spec.to_world_dir(cx, T, dl)
+                a = cx.call(moved.support_function, d)
+                ia = int(moved._support_function.first_idx)
+                best = max(float(np.dot(V[k], dl)) for k in range(nverts))
+                cx.prove("support_after_move_is_extreme", bool(float(np.dot(V[ia], dl)) >= best - 1e-9))
         elif q == 1:
             cx.prove("aabb_equal", cx.eq(cx.call(moved.aabb), cx.call(fresh.aabb)), tol=1e-9)
         elif q == 2:
@@ -189,6 +189,34 @@ def make_mesh_contracts(name):
         else:
             cx.prove("first_vertex_equal", cx.eq(cx.call(moved.first_vertex), cx.call(fresh.first_vertex)), tol=1e-9)
         cx.cover("end")
+
+
+def _state_equal(cx, a, b, path, refs):
+    """recursive equality of two objects' attribute dictionaries (arrays element-wise, numbers, dicts of arrays, nested objects)"""
+    ka, kb = set(vars(a)), set(vars(b))
+    cx.prove("state:%s:same_attributes" % path, bool(ka == kb), detail="%s vs %s" % (sorted(ka - kb), sorted(kb - ka)))
+    for k in sorted(ka & kb):
+        va, vb = getattr(a, k), getattr(b, k)
+        nm = "state:%s.%s" % (path, k)
+        if k == "first_idx":
+            cx.prove(nm + ":referenced_vertex", bool(int(va) in refs))
+        elif va is None or vb is None:
+            cx.prove(nm, bool(va is None and vb is None))
+        elif isinstance(va, np.ndarray) or isinstance(vb, np.ndarray):
+            ok_shape = isinstance(va, np.ndarray) and isinstance(vb, np.ndarray) and va.shape == vb.shape
+            cx.prove(nm + ":shape", bool(ok_shape))
+            if ok_shape:
+                cx.prove(nm, cx.eq(va, vb), tol=1e-12)
+        elif isinstance(va, dict) or (hasattr(va, "keys") and hasattr(va, "items")):
+            va, vb = dict(va), dict(vb)        # numba typed dicts natively
+            same = set(va) == set(vb) and all(sorted(np.asarray(va[i]).tolist()) == sorted(np.asarray(vb[i]).tolist()) for i in va)
+            cx.prove(nm, bool(same))
+        elif hasattr(va, "__dict__") and not isinstance(va, (type, __import__("types").FunctionType, __import__("types").MethodType)):
+            _state_equal(cx, va, vb, path + "." + k, refs)
+        elif isinstance(va, (int, float, np.integer, np.floating, bool)):
+            cx.prove(nm, bool(va == vb))
+        else:
+            cx.prove(nm, bool(va is vb or va == vb))
 
 
 for _n in MESHES:
